@@ -552,7 +552,12 @@ def audit_real(system, option, seeds=range(1, 13), steps=60, dt=0.015625, state=
 
 
 def audit_finds(system, option, kind, **kw):
+    """replay of a stochastic-leg counterexample on the real build: first from the catalogue state, then from a
+    well-populated state (40 molecules everywhere) so that every channel fires within the audited steps"""
     try:
-        return kind in audit_real(system, option, **kw)
+        if kind in audit_real(system, option, **kw):
+            return True
+        n = len(system.state)
+        return kind in audit_real(system, option, state=[40.0] * n, steps=120, **kw)
     except Exception:
         return False
